@@ -157,6 +157,23 @@ BUILT = {
         'read back with read_reactions, numbers parsed from the text against the model to the printed precision, sections and counts.',
    note=BASE_NOTE + '; species are abstract callees ignoring the keywords units/activation; format(x, spec) is a function of (spec, x) with exact '
         'E-format width; str(datetime.now()) is one line; mechanism shapes enumerated, larger ones only by the bounded check; one known finding (D31)'),
+ 'C07': dict(level='other', sec='4/C07',
+   text='Deductive. _assign_yaml_val by value type x unit (float, int, bool, str, str with its own units, list, dict; omitted; label already present; '
+        'no unit system): the header receives exactly the label with the value and its unit text and nothing else changes. write_yaml: the dictionary '
+        'handed to yaml.dump is exactly {reactor, inlet_gas, simulation(+solver, multi_input, sensitivity), phases} with every supplied option under its '
+        'key with its unit and no other key (all scalar options, multi-run inputs, user dictionaries win, sensitivity targets, phases given as list '
+        'or dict, nothing given). Phases as a data structure: constructor / setter / append / extend / pop / remove / clear / copy / index specified on '
+        'the whole species view, the elements union and the frame (other phases untouched; two interfaces built empty do not share a list). Emitters: '
+        'IdealGas / StoichSolid / InteractingInterface to_omkm_yaml and to_cti (species, elements, density and site density converted to the requested '
+        'units, id ranges), Nasa / Nasa9 / Shomate to_omkm_yaml and to_cti (name, composition, occupancy, ranges, coefficients, balanced directives), '
+        'PiecewiseCovEffect (members, thresholds, strengths in the requested units), SurfaceReaction to_omkm_yaml / to_cti / get_A (equation, id, A or '
+        'sticking coefficient, b, Ea = model value at T in the requested units, user A / Ea win, sticking species, Motz-Wise), BEP. Whole files '
+        '(write_thermo_yaml via the dictionaries handed to yaml.dump, write_cti via its sections): sections in order, every phase / species / reaction / '
+        'interaction / BEP once with its own emitter output, ids unique with user ids kept. Bounded (labelled): random models written, YAML loaded and '
+        'compared with the objects, CTI executed by the bundled ctml_writer, reactor options as Python / NumPy numbers and strings.',
+   note=BASE_NOTE + '; PyYAML is external: contracts are stated on the dictionaries handed to yaml.dump, the dumped text / its re-loading / the '
+        'quote stripping only by the bounded check; str(x) and format(x, spec) of a float are functions of the value; model shapes enumerated; '
+        'NumPy-typed inputs only in the bounded check; one known finding (D17, YAML keyword names)'),
 }
 REASON_PENDING = 'check not built yet (build phase in progress; see DESIGN.md section 10)'
 checks = []
